@@ -30,6 +30,22 @@ MarshalJSONRef(n, sw) ==
   ELSE IF ~sw.dmjs THEN "\"" \o MarshalTextRef(n, sw) \o "\""
   ELSE DigStr(BNorm(n))
 
+\* meaning of the implementation's own JSON output under the SPECIFIED parser, for the shapes
+\* the marshaller is documented to produce; an unrecognised shape is no demand here
+MjMeaning(b) ==
+  LET L == Len(b) IN
+  IF L >= 1 /\ AllDigits(b) THEN ParseSizeTextRef(b, 0)
+  ELSE IF L >= 2 /\ b[1] = 34 /\ b[L] = 34 /\ \A i \in 2..(L - 1) : b[i] # 34 /\ b[i] # 92
+       THEN ParseSizeTextRef(SubSeq(b, 2, L - 1), 0)
+  ELSE LET p1 == StrToSeq("{\"value\":")  p2 == StrToSeq(",\"unit\":\"") IN
+       IF L >= 22 /\ SubSeq(b, 1, 9) = p1 THEN
+            LET e == FirstNonDigit(b, 10) IN
+            IF e > 10 /\ e + 8 <= L /\ SubSeq(b, e, e + 8) = p2 /\ b[L] = 125 /\ b[L - 1] = 34
+                 /\ \A i \in (e + 9)..(L - 2) : b[i] # 34 /\ b[i] # 92
+            THEN NewSizeRef("int", OfAscii(SubSeq(b, 10, e - 1)), SubSeq(b, e + 9, L - 2))
+            ELSE DontCare
+       ELSE DontCare
+
 \* DefaultParser(input, rule): limit first, then JSON or text mode.  doc/wf describe the input
 \* as a JSON document (only used in JSON mode)
 SizeParseRef(t, rule, doc, wf, max, keys) ==
